@@ -387,6 +387,45 @@ static void other_scenarios()
     SCN("format({} {} {}, long, 42, 1e100 fixed)", S x = ST::format("{} {} {f}", u8long.c_str(), 42, 1e100); (void)x);
     SCN("format({>300}, 7)", S x = ST::format("{>300}", 7); (void)x);
     SCN("format_latin_1({}, long)", S x = ST::format_latin_1("{}", "a tail that is long enough for the heap \xE9"); (void)x);
+    // long floating-point renderings (>= 64 characters take the formatter's heap fallback) while the output stream grows
+    SCN("format({.300f}, 1.5)", S x = ST::format("{.300f}", 1.5); (void)x);
+    SCN("format({.70f}{>250}, 1.5, 7)", S x = ST::format("{.70f}{>250}", 1.5, 7); (void)x);
+    SCN("format({>250}{.100e}, 7, 1.0)", S x = ST::format("{>250}{.100e}", 7, 1.0); (void)x);
+    SCN("format({f}{f}, 1e100, 1e200)", S x = ST::format("{f}{f}", 1e100, 1e200); (void)x);
+    SCN("format({}{.90f}, long, 2.5f)", S x = ST::format("{}{.90f}", u8long.c_str(), 2.5f); (void)x);
+    SCN("format_latin_1({.300f}, 1.5)", S x = ST::format_latin_1("{.300f}", 1.5); (void)x);
+    SCN("format({}{}{}, wide, u16, u32 text)", S x = ST::format("{}{}{}", L"wide text that is long enough", u"utf-16 text that is long enough", U"utf-32 text that is long enough"); (void)x);
+    SCN("format({x}{o}{b}, big numbers)", S x = ST::format("{>100x}{>100o}{>100b}", 0xFFFFFFFFFFFFFFFFull, -1LL, 12345); (void)x);
+    SCN("(stream << 1e300 << -1 << text).to_string()", ST::string_stream ss; ss.append_char('p', 250); ss << 1e300 << -1LL << u8long.c_str(); S x = ss.to_string(); (void)x);
+    // assignment-like calls under substitute_invalid with input that really needs repair: the repair allocates after the
+    // raw bytes have been received; the target must keep its previous value (or be empty), never the unrepaired bytes
+    for (size_t tpre : {size_t(8), size_t(40)})
+        for (int in = 0; in < 3; ++in)
+            for (int how = 0; how < 7; ++how) {
+                static const char *HOW[7] = {"t.set(cstr)", "t.set(ptr,n)", "t.set(char_buffer&&)", "t.set(std::string)", "t.set(string_view)", "t = S(ptr,n,subst)", "t = S::from_utf8"};
+                static const char *INN[3] = {"14 bytes, one bad", "41 bytes, one bad", "16 bytes, bad lead at the end"};
+                g_scn.push_back(Scenario{vf::strf("string[%zu].%s under substitute_invalid with %s", tpre, HOW[how], INN[in]), [=](vf::Outcome &oc) {
+                                             std::string prev(tpre, 'v');
+                                             std::string bad = in == 0 ? std::string("abcdefghijklm\xFF") : in == 1 ? std::string(20, 'a') + "\xFF" + std::string(20, 'b') : std::string(15, 'q') + "\xE2";
+                                             S t;
+                                             SETUP(t = S::from_validated(prev.data(), prev.size()));
+                                             oc = vf::guard([&] {
+                                                 switch (how) {
+                                                 case 0: LIB(t.set(bad.c_str(), ST_AUTO_SIZE, ST::substitute_invalid)); break;
+                                                 case 1: LIB(t.set(bad.data(), bad.size(), ST::substitute_invalid)); break;
+                                                 case 2: LIB(ST::char_buffer cb(bad.data(), bad.size()); t.set(std::move(cb), ST::substitute_invalid)); break;
+                                                 case 3: LIB(t.set(bad, ST::substitute_invalid)); break;
+                                                 case 4: LIB(t.set(std::string_view(bad), ST::substitute_invalid)); break;
+                                                 case 5: LIB(t = S(bad.data(), bad.size(), ST::substitute_invalid)); break;
+                                                 default: LIB(t = S::from_utf8(bad.data(), bad.size(), ST::substitute_invalid)); break;
+                                                 }
+                                             });
+                                             std::string pr = oc.ok() ? "" : buf_problem<char>(t.m_buffer, prev, "target");
+                                             if (pr.empty() && oc.ok() && std::string(t.c_str(), t.size()).find('\xFF') != std::string::npos) pr = "result still holds the invalid byte";
+                                             LIB(t.~S(); new (&t) S());
+                                             return pr;
+                                         }});
+            }
     // a std::basic_ostream turns an exception raised while it grows its own buffer into badbit: count that as "reported"
     g_scn.push_back(Scenario{"std::ostringstream << S(long)", [](vf::Outcome &oc) {
                                  bool bad = false;
